@@ -33,6 +33,9 @@ type C16Params struct {
 	// KeyUpdate (DTLS 1.3 data phase, one target): the target calls UpdateKeys while everything its
 	// peer sends is lost, so that the call is blocked waiting for an ACK when the action fires
 	KeyUpdate bool `json:"key_update,omitempty"`
+	// KeyUpdateLive: the link stays up, so the ACK of the KeyUpdate is being processed (by the
+	// handshake goroutine, under the connection's locks) around the moment the action fires
+	KeyUpdateLive bool `json:"key_update_live,omitempty"`
 }
 
 // Op is one tracked API call.
@@ -141,6 +144,11 @@ func c16Gen(r *rand.Rand, tier string, idx int) any {
 		if c, okc := dataCfgByName(p.Cfg); okc && c.C.MaxVer == 13 && p.Who != "both" && r.IntN(2) == 0 {
 			p.KeyUpdate, p.Stall, p.PeerWriteErr = true, false, false
 			p.Step = 20 + r.IntN(60)
+			if r.IntN(2) == 0 {
+				p.KeyUpdateLive = true
+				p.Step = 1 + r.IntN(120)
+				p.ParkPm = []int{100, 300, 500, 800}[r.IntN(4)]
+			}
 		}
 		if r.IntN(3) == 0 {
 			p.Rules = NetRules{DropPm: 100 + r.IntN(200), DupPm: r.IntN(100), FaultsUntilIdx: 3 + r.IntN(8)}
@@ -411,12 +419,14 @@ func c16Run(rc *RunCtx, params any) {
 		if p.KeyUpdate && len(targets) == 1 {
 			ep := targets[0]
 			s.Run(func() bool { return false }, 50*time.Millisecond)
-			n.Rewrite = func(em *Emission) []byte {
-				if em.Ep == other[ep] {
-					return nil // the ACK of the KeyUpdate never arrives
-				}
+			if !p.KeyUpdateLive {
+				n.Rewrite = func(em *Emission) []byte {
+					if em.Ep == other[ep] {
+						return nil // the ACK of the KeyUpdate never arrives
+					}
 
-				return em.Data
+					return em.Data
+				}
 			}
 			kuOp = ops.start("UpdateKeys", ep, func() (int, error) {
 				return 0, conns[ep].UpdateKeys(context.Background(), dtls.KeyUpdateOptions{})
@@ -432,6 +442,9 @@ func c16Run(rc *RunCtx, params any) {
 	fire := func() {
 		fired = true
 		firedAt = s.Now()
+		if kuOp != nil && p.KeyUpdateLive && !kuOp.Done {
+			s.Probe("action-fired-while-live-key-update-pending:" + p.Action)
+		}
 		if p.PeerWriteErr && p.Who != "both" {
 			socks[other[p.Who]].WriteErr = func(int) error { return errors.New("simnet: write: no buffer space available") }
 		}
@@ -464,6 +477,18 @@ func c16Run(rc *RunCtx, params any) {
 			case "alert":
 				// a fatal alert in the clear; only meaningful before the receiver is established
 				n.InjectNow(pair.addrOf(other[ep]), pair.addrOf(ep), []byte{21, 0xfe, 0xfd, 0, 0, 0, 0, 0, 0, 0xff, 0, 0, 2, 2, 40})
+			}
+		}
+	}
+	if p.KeyUpdateLive && kuOp != nil {
+		// aim at the moment the ACK of the KeyUpdate is being processed: the action fires on the
+		// controller at the instant the first datagram reaches the updating endpoint, so that the
+		// goroutines it starts and the library's reader / handshake goroutines become runnable
+		// together and the scheduler (and its parking) decides how they interleave at every lock
+		base += 1 << 40
+		n.OnDeliver = func(d *Delivery) {
+			if !fired && d.Ep == kuOp.Ep && !d.Injected {
+				fire()
 			}
 		}
 	}
